@@ -66,6 +66,9 @@ def run(ctx):
     obs4_6(rep, fmt_fns)
     rep.rule("OBS-8", "no metric reads the field that names a sibling metric; no two metrics read the same field", floor=15)
     obs8(rep, fmt_fns)
+    rep.rule("OBS-10", "the observer serves LIVE state: the snapshot handed to a client is taken after that client connected "
+                       "(not before waiting for the connection)", floor=1)
+    obs10(rep, prog)
     rep.rule("OBS-9", "a label's value is read from the field the label is named after (a `parent_*` label is not filled "
                       "from a `grandmaster_*` field)", floor=3)
     obs9(rep, fmt_fns)
@@ -584,3 +587,49 @@ def obs9(rep, fmt_fns):
                               where=hir.where(c))
             else:
                 rep.ok("OBS-9", key, construct, detail=".".join(chain), where=hir.where(c), nontrivial=False)
+
+
+
+def obs10(rep, prog):
+    """OBS-10: in every accept loop of the daemon's observer, a read of the published instance state (`.borrow()` on the
+    watch receiver) does not precede the accept().await of that iteration"""
+    n = 0
+    for key, (u, h) in sorted(prog.hir.items()):
+        if "observer" not in key or "::tests" in key:
+            continue
+        body = hir.simplify(hir.fn_body(h))
+        for L in hir.walk(body, enter_closures=True):
+            if L.get("k") != "loop":
+                continue
+            stmts = L["body"].get("stmts", [])
+
+            def has_accept(x):
+                for y in hir.walk(x, enter_closures=False):
+                    if y.get("k") == "await":
+                        e = hir.strip_wrappers(y["e"])
+                        if e.get("k") in ("mcall", "call") and hir.callee_name(e).endswith("::accept"):
+                            return True
+                return False
+
+            def has_snapshot(x):
+                for y in hir.walk(x, enter_closures=False):
+                    if y.get("k") == "mcall" and y.get("name") in ("borrow", "borrow_and_update") and \
+                            "watch::Receiver" in (y.get("recv_ty") or ""):
+                        return True
+                return False
+            ia = [i for i, s_ in enumerate(stmts) if has_accept(s_)]
+            isn = [i for i, s_ in enumerate(stmts) if has_snapshot(s_)]
+            if L["body"].get("expr") is not None and has_snapshot(L["body"]["expr"]):
+                isn.append(len(stmts))
+            if not ia or not isn:
+                continue
+            n += 1
+            if min(isn) > min(ia):
+                rep.ok("OBS-10", key, "snapshot after accept", where=hir.where(L))
+            else:
+                rep.violation("OBS-10", key, "snapshot after accept",
+                              "the instance state is read BEFORE the accept().await of the same iteration: the snapshot is held "
+                              "while the observer waits for the next client, which is then served data from before the previous "
+                              "request (one request old, with a stale uptime)", where=hir.where(L))
+    if n == 0:
+        rep.anchor_missing("OBS-10", "no accept loop with a state snapshot found in the observer")
